@@ -74,9 +74,12 @@ def _index(m):
     return names
 
 
-def wfsa_proj(m):
+def wfsa_proj(m, expect_R=None):
     nm = _index(m)
     R = m.R
+    if expect_R is not None and R is not expect_R:
+        from project import WrongSemiring
+        raise WrongSemiring(f"the result is an automaton over {getattr(R, '__name__', R)}, not over {getattr(expect_R, '__name__', expect_R)}")
     out = {"n": len(nm),
            "I": [[nm[q], enc_w(R, w)] for q, w in m.I],
            "F": [[nm[q], enc_w(R, w)] for q, w in m.F],
@@ -153,7 +156,7 @@ def f_wop(a):
         m2 = build_wfsa(a["B"], a["sr"], a.get("style2", "int"), a.get("cls", "base"))
         out = BINARY[name](m, m2)
         e["fn"], e["posts"], e["B"] = name, [], a["B"]
-    e["out"] = wfsa_proj(out)
+    e["out"] = wfsa_proj(out, expect_R=m.R)
     e["fname"] = name
     return e
 
@@ -187,7 +190,7 @@ def f_wlang(a):
         entries = [[[], one]]
     else:
         raise ValueError(k)
-    return {"op": "wlang", "sr": srmodel(a["sr"]), "M": wfsa_proj(m), "sigma": a["sigma"], "L": a["L"],
+    return {"op": "wlang", "sr": srmodel(a["sr"]), "M": wfsa_proj(m, expect_R=R), "sigma": a["sigma"], "L": a["L"],
             "entries": [x for x in entries if len(x[0]) <= a["L"] and x[1] != enc_w(R, R.zero)]}
 
 
@@ -209,7 +212,7 @@ def f_tobytes(a):
     out = m.to_bytes()
     syms = sorted({x for x in m.alphabet if x != EPSILON})
     cps, bts = _byte_tables(syms)
-    return {"op": "tobytes", "sr": srmodel(a["sr"]), "M": a["M"], "out": wfsa_proj(out), "sigma": [tname(x) for x in syms],
+    return {"op": "tobytes", "sr": srmodel(a["sr"]), "M": a["M"], "out": wfsa_proj(out, expect_R=m.R), "sigma": [tname(x) for x in syms],
             "cps": cps, "bytes": bts, "L": a["L"]}
 
 
